@@ -16,7 +16,7 @@ from .traced import TracedSampler, Registry
 DEFAULT = dict(kind='gauss', n_dim=2, K=8, mseed=0, blob='none', prior='id', vectorized=False,
                n_live=20, n_batch=4, n_update=None, n_like_new_bound=None, n_points_min=4,
                n_networks=0, periodic=None, pool=None, seed=1, enlarge_per_dim=1.1,
-               split_threshold=100, filepath=False, world=None,
+               split_threshold=100, filepath=False, world=None, snapshot_only=False,
                history=[['run', dict(n_eff=60, n_like_max=600, discard_exploration=True)], ['posterior']])
 
 
@@ -44,12 +44,21 @@ def make_sampler(cfg, reg, path=None, resume=True):
               split_threshold=c['split_threshold'], filepath=path, resume=resume)
     if c['periodic'] is not None:
         kw['periodic'] = np.array(c['periodic'], dtype=int)
-    if c['pool'] is not None:
+    scripted = None
+    if c['pool'] is not None and c['pool'] != 'scripted3':
         kw['pool'] = tuple(c['pool']) if isinstance(c['pool'], (list, tuple)) else c['pool']
+    if c['pool'] == 'scripted3':
+        scripted = 3
     if c['n_networks'] > 0:
         kw['neural_network_kwargs'] = dict(hidden_layer_sizes=(8, 4), max_iter=60)
     kw.update(m.sampler_kwargs())
-    return TracedSampler(reg, m.prior(), m.likelihood, **kw)
+    s = TracedSampler(reg, m.prior(), m.likelihood, **kw)
+    if scripted:
+        # an in-process pool of three workers (completion order reversed): the likelihood calls it makes are counted
+        from .equiv import ScriptedPool
+        from nautilus.pool import NautilusPool
+        s.pool_l = NautilusPool(ScriptedPool([[0]], size=scripted))
+    return s
 
 
 def close_pools(s):
@@ -73,6 +82,7 @@ def run_history(cfg, scratch_dir=None):
     model = Model(kind=c['kind'], n_dim=c['n_dim'], K=c['K'], seed=c['mseed'], blob=c['blob'],
                   prior=c['prior'], vectorized=c['vectorized'], cells_lv=(world.lv if world else None))
     reg = Registry(model)
+    reg.sparse = bool(c.get('snapshot_only'))
     path = None
     if c['filepath']:
         d = scratch_dir or common.scratch('hist_')
@@ -128,6 +138,13 @@ def run_history(cfg, scratch_dir=None):
                 close_pools(s)
             if path and os.path.exists(path) and scratch_dir is None:
                 common.rmtree(os.path.dirname(path))
+    if c.get('snapshot_only') and s is not None and info['error'] is None:
+        # one record: the final state, on which TLC evaluates every state invariant of Sampler.tla
+        from .traced import project
+        reg.pc = 'out'
+        rec = project(s, reg)
+        rec['event'] = dict(name='Snapshot')
+        reg.events = [rec]
     info['n_like'] = len(reg.points)
     info['wall_s'] = round(time.time() - t0, 2)
     info['event_names'] = [e['event']['name'] for e in reg.events]
